@@ -3,6 +3,7 @@ package checks
 import (
 	"context"
 	"fmt"
+	"math/rand"
 	"net/http/httptest"
 	"net/netip"
 	"net/url"
@@ -86,6 +87,12 @@ func checkC19() fw.Check {
 				}
 			}
 			if tier == "thorough" {
+				// seeded sample of the full product
+				rr := rand.New(rand.NewSource(seed*31 + 7))
+				for i := 0; i < 30000; i++ {
+					add(c19Req{minTTL: c19TTLs[rr.Intn(len(c19TTLs))], maxTTL: c19TTLs[rr.Intn(len(c19TTLs))], port: c19Ports[rr.Intn(len(c19Ports))],
+						proto: c19Protos[rr.Intn(len(c19Protos))], method: c19Methods[rr.Intn(len(c19Methods))], targetForm: c19Targets[rr.Intn(len(c19Targets))], viaHTTP: rr.Intn(3) == 0})
+				}
 				for _, proto := range []string{"udp", "icmp"} {
 					for _, tf := range []string{"v6", "v6brport"} {
 						for _, mn := range c19TTLs {
